@@ -169,6 +169,9 @@ func c04Typing(e *emitter, seed uint64, tier string) {
 		{"in-if-node", "if c {\n\t\t<%[1]s %[2]s={ %[3]s }>x</%[1]s>\n\t}"},
 		{"in-for", "for i := 0; i < 2; i++ {\n\t\t<%[1]s if d { %[2]s={ %[3]s } }>x</%[1]s>\n\t}"},
 		{"in-call-block", "@wrap() {\n\t\t<%[1]s %[2]s={ %[3]s }>x</%[1]s>\n\t}"},
+		// the same expression text used by an earlier plain string attribute of the element: each use is typed by its own attribute
+		{"shared-before", `<%[1]s title={ %[3]s } %[2]s={ %[3]s }>x</%[1]s>`},
+		{"shared-data", `<%[1]s data-target={ %[3]s } class="c" %[2]s={ %[3]s }>x</%[1]s>`},
 	}
 	pairs := [][2]string{{"a", "href"}, {"form", "action"}, {"a", "HREF"}, {"a", "Href"}, {"form", "Action"}, {"A", "href"}, {"FORM", "ACTION"}}
 	exprs := []string{"u", "templ.URL(s)", "templ.SafeURL(s)", "p.Link"}
